@@ -23,12 +23,15 @@ macro_rules! dispatch {
     ($id:expr, $f:ident, $($arg:expr),*) => {
         match $id {
             "C01" => $f::<props::c01::C01>($($arg),*),
+            "C02" => $f::<props::c02::C02>($($arg),*),
+            "C03" => $f::<props::c03::C03>($($arg),*),
             "C04" => $f::<props::c04::C04>($($arg),*),
             "C05" => $f::<props::c05::C05>($($arg),*),
             "C08" => $f::<props::c08::C08>($($arg),*),
             "C09" => $f::<props::c09::C09>($($arg),*),
             "C12" => $f::<props::c12::C12>($($arg),*),
             "C13" => $f::<props::c13::C13>($($arg),*),
+            "C15" => $f::<props::c15::C15>($($arg),*),
             "C17" => $f::<props::c17::C17>($($arg),*),
             other => {
                 eprintln!("unknown property {other}");
